@@ -41,6 +41,18 @@ func init() {
 			j := &Job{Scenario: "cache.conc", Params: js(p), Variant: "small", PB: 2, Shards: 4, BudgetS: 60, Need: []string{"interleavings-explained", "read-buffer-saturated-at-start"}}
 			jobs = append(jobs, j)
 		}
+		// sequential: recorded reads are pending when the maximum is lowered (the sketch may be rebuilt or released) and
+		// entries are invalidated; the next CleanUp delivers them
+		{
+			cfg := CacheCfg{MaxSize: 8}
+			pre := []string{"set 1", "set 2", "set 3", "set 4", "set 5", "cleanup", "get 1", "get 2", "get 1"}
+			a := []string{"setmax 0", "setmax 1", "setmax 2", "setmax 4", "setmax 20", "inv 1", "inv 2", "inv 3", "inv 4", "get 3", "cleanup", "set 6"}
+			depth := 4
+			if thorough {
+				depth = 5
+			}
+			jobs = append(jobs, seqJob(seqParams{Cfg: cfg, Alphabet: a, Prefixes: [][]string{pre}}, depth, 4, 60, "cleanups-with-empty-read-buffer"))
+		}
 		// cache level: the read buffer has exactly one consumer at a time. Recorded reads are pending when two operations
 		// that drain it (InvalidateAll, CleanUp, a write's maintenance) overlap; afterwards every recorded read is
 		// delivered by a drain at quiescence
